@@ -86,7 +86,11 @@ func (r *CheckRun) runNative(pkgDir string, jobs []*replayJob) error {
 	if err != nil {
 		return err
 	}
-	defer os.RemoveAll(tmp)
+	if os.Getenv("GOSMT_KEEP") == "" {
+		defer os.RemoveAll(tmp)
+	} else {
+		fmt.Println("keeping", tmp)
+	}
 	wdir := filepath.Join(tmp, "w")
 	os.MkdirAll(wdir, 0o755)
 	for i, j := range jobs {
@@ -218,7 +222,7 @@ func tail(s string, n int) string {
 }
 
 // compareNative checks a native run of an OK path against the engine's expectation.
-func compareNative(p *PathResult, no *nativeOut) string {
+func compareNative(p *PathResult, no *nativeOut, twin bool) string {
 	if no.Panic != "" {
 		return "native run panicked: " + firstLines(no.Panic, 24)
 	}
@@ -232,6 +236,9 @@ func compareNative(p *PathResult, no *nativeOut) string {
 		if !a.OK {
 			return "native run failed assertion " + a.Name + " on a path the engine proved safe"
 		}
+	}
+	if twin {
+		return ""
 	}
 	if len(no.Reached) != len(p.Reached) {
 		return fmt.Sprintf("reach tags differ: engine %v native %v", p.Reached, no.Reached)
